@@ -11,6 +11,7 @@
 #include "LinearAlgebra/symmetricTridiagonalSolver.h"
 #include "LinearAlgebra/diagonalSolver.h"
 #include <cstring>
+#include <omp.h>
 #include <new>
 #include <sys/wait.h>
 #include <unistd.h>
@@ -301,6 +302,34 @@ static int run_objects(Rng& rng) {
     auto report = [](const char* cls, const char* op, bool ok, const char* detail) {
         std::printf("PROP %s %s => %s\n", cls, op, ok ? "ok" : detail);
     };
+    // large vectors (above the kernels' parallelisation threshold), copied from a serial context and from inside an active
+    // parallel region (where an inner team has one thread), with several thread counts configured
+    {
+        const int saved = omp_get_max_threads();
+        for (int nt : {1, 2, 4, 7}) {
+            omp_set_num_threads(nt);
+            for (int n : {10000, 10001, 10007, 50000}) {
+                Vector<double> a(n);
+                for (int i = 0; i < n; i++) a[i] = 1.0 + i * 0.5;
+                auto same = [&](const Vector<double>& v) { if (v.size() != n) return false; for (int i = 0; i < n; i++) if (v[i] != 1.0 + i * 0.5) return false; return true; };
+                Vector<double> c(a); Vector<double> d(n); for (int i = 0; i < n; i++) d[i] = -7.0; d = a; Vector<double> e(3); e = a;
+                bool ok_serial = same(c) && same(d) && same(e) && same(a);
+                bool ok_nested = true;
+#pragma omp parallel num_threads(nt)
+                {
+#pragma omp single
+                    {
+                        Vector<double> c2(a); Vector<double> d2(n); for (int i = 0; i < n; i++) d2[i] = -7.0; d2 = a; Vector<double> e2; e2 = a;
+                        ok_nested = same(c2) && same(d2) && same(e2);
+                    }
+                }
+                std::printf("PROP Vector large-copy threads=%d n=%d => %s\n", nt, n,
+                            !ok_serial ? "FAIL a copy made in a serial context differs from its source"
+                            : (!ok_nested ? "FAIL a copy made inside an active parallel region differs from its source" : "ok"));
+            }
+        }
+        omp_set_num_threads(saved);
+    }
     for (int h = 0; h < histories; h++) {
         // Vector
         {
